@@ -99,6 +99,7 @@ def axioms():
     A('cat_at_r', ForAll([s, t, i], Implies(And(0 <= i, i < slen(t)), at(cat(s, t), i + slen(s)) == at(t, i)),
                          patterns=[MultiPattern(cat(s, t), at(t, i))]))
     A('cat_mem', ForAll([s, t, y], mem(cat(s, t), y) == Or(mem(s, y), mem(t, y)), patterns=[mem(cat(s, t), y), MultiPattern(cat(s, t), mem(s, y)), MultiPattern(cat(s, t), mem(t, y))]))
+    A('cat_snoc', ForAll([s, t, x], cat(s, app(t, x)) == app(cat(s, t), x), patterns=[cat(s, app(t, x))]))
     A('cat_empty', ForAll([s], And(cat(s, sempty) == s, cat(sempty, s) == s), patterns=[cat(s, sempty), cat(sempty, s)]))
     # slc (arguments already clamped by the engine: 0<=a<=b<=len)
     A('slc_len', ForAll([s, a, b], Implies(And(0 <= a, a <= b, b <= slen(s)), slen(slc(s, a, b)) == b - a), patterns=[slc(s, a, b)]))
@@ -154,6 +155,17 @@ def axioms():
     A('consts', And(Not(truthy(None_)), truthy(True_), Not(truthy(False_)),
                     *[Not(f(c)) for f in (is_int, is_tup, is_ref) for c in (None_, True_, False_, NotImpl_)]))
     return ax
+
+
+_AXIOMS = None
+
+
+def axioms_cached():
+    """the axiom list, built once per process (the same AST objects every time: caches keyed by AST id stay valid)"""
+    global _AXIOMS
+    if _AXIOMS is None:
+        _AXIOMS = axioms()
+    return _AXIOMS
 
 
 def distinct_consts():
